@@ -512,8 +512,20 @@ func solveRace(file string, timeoutS int, confirm bool) (solveResult, []solveRes
 	var best solveResult
 	best.status = "unknown"
 	definite := 0
+	var grace <-chan time.Time
 	for i := 0; i < len(solvers); i++ {
-		x := <-ch
+		var x solveResult
+		select {
+		case x = <-ch:
+		case <-grace:
+			// a second solver did not confirm within the grace period after the first definite answer: keep the first
+			cancel()
+			i = len(solvers)
+			continue
+		}
+		if (x.status == "sat" || x.status == "unsat") && definite == 0 && confirm {
+			grace = time.After(time.Duration(10+3*x.secs) * time.Second)
+		}
 		all = append(all, x)
 		if x.status == "sat" || x.status == "unsat" {
 			if definite == 0 {
